@@ -205,3 +205,15 @@ package cache
 //@   requires c.rds != nil
 //@   ensures result == c.rds.Addr
 //@   modifies nothing
+
+// the expiry options hand the configured values on as they are (newOptions, proved above, then makes them positive)
+//@ func WithExpiry closure 0
+//@   property C06
+//@   requires o != nil
+//@   ensures o.Expiry == expiry
+//@   modifies o.Expiry
+//@ func WithNotFoundExpiry closure 0
+//@   property C06
+//@   requires o != nil
+//@   ensures o.NotFoundExpiry == expiry
+//@   modifies o.NotFoundExpiry
